@@ -33,7 +33,7 @@ func runC02(c *ev.Ctx) {
 	c.Assume("libwebp 1.2.4 and golang.org/x/image (2019) are the independent implementations")
 	c.Assume("the VP8L alpha_is_used bit is a hint: set-on-opaque is not flagged")
 	pc := newPairCover()
-	n := c.N(1400, 25000)
+	n := c.N(6000, 300000)
 	var cases []ev.Case
 	for i := 0; i < n; i++ {
 		r := rng(c, i)
@@ -66,6 +66,9 @@ func c02One(c *ev.Ctx, cs ev.Case, pc *pairCover) {
 	cc := cs.Data.(c02Case)
 	r := rng(c, cs.Idx+1<<20)
 	base := img.Gen(r, cc.Class, cc.Alpha, cc.W, cc.H)
+	if r.Intn(4) == 0 {
+		base = img.Shift(base, r.Intn(30)-8, r.Intn(30)-8)
+	}
 	src := img.AsType(r, base, cc.Type)
 	o := legalOpts(r, cc.Lossless)
 	if o.Pass > 3 && cc.W*cc.H > 4000 {
